@@ -93,8 +93,17 @@ def _dir(draw):
             "check_every_step": draw(st.booleans())}
 
 
+@st.composite
+def _stream(draw):
+    """several objects saved one after the other into one open file and loaded back in the same order"""
+    nobj = draw(st.integers(2, 3))
+    return {"kind": "stream", "objs": [{"cls": draw(st.sampled_from(DIRCLASSES)),
+                                        "ints": draw(st.lists(st.integers(-9, 9), min_size=40, max_size=40))}
+                                       for _ in range(nobj)]}
+
+
 def strategy(tier):
-    return st.one_of(_obj(), _obj(), _export(), _dir())
+    return st.one_of(_obj(), _obj(), _export(), _dir(), _stream())
 
 
 def grid(tier):
@@ -131,6 +140,8 @@ def check_case(case, ctx):
             _check_object(case, ctx, tmp)
         elif case["kind"] == "dir":
             _check_dir(case, ctx, tmp)
+        elif case["kind"] == "stream":
+            _check_stream(case, ctx, tmp)
         else:
             _check_export(case, ctx, tmp)
     finally:
@@ -505,6 +516,49 @@ def _check_dir(case, ctx, tmp):
             return
     compare(len(case["ops"]))
     ctx.mark_nontrivial(alternated and len(case["ops"]) >= 3)
+
+
+def _check_stream(case, ctx, tmp):
+    import quantarhei as qr
+    from quantarhei.core.parcel import load_parcel
+    pool = []
+    for o in case["objs"]:
+        try:
+            obj, ex = build(qr, o["cls"], o["ints"])
+        except HarnessError:
+            raise
+        except Exception as e:
+            raise HarnessError("construction of %s failed: %r" % (o["cls"], e))
+        pool.append((obj, ex, ex(obj), o["cls"]))
+    path = os.path.join(tmp, "stream.qrp")
+    ctx.label("stream", "n=%d" % len(pool))
+    ctx.mark_nontrivial(len(set(p[3] for p in pool)) >= 2)
+
+    def roundtrip():
+        with open(path, "wb") as f:
+            for obj, _, _, _ in pool:
+                obj.save(f)
+        out = []
+        with open(path, "rb") as f:
+            for _ in pool:
+                out.append(load_parcel(f))
+        return out
+    ok, loaded = guarded(ctx, "save-load", roundtrip, "stream")
+    if not ok:
+        return
+    for k, ((obj, ex, want, cls), lo) in enumerate(zip(pool, loaded)):
+        if type(lo).__name__ != type(obj).__name__:
+            ctx.fail("roundtrip/stream-order", "stream", position=k, got=type(lo).__name__, want=type(obj).__name__)
+            return
+        ok, got = guarded(ctx, "read-loaded-object", lambda: ex(lo), "stream", cls=cls)
+        if not ok:
+            return
+        for name, w in want.items():
+            sc = max(1e-300, float(numpy.max(numpy.abs(w)))) if numpy.size(w) else 1.0
+            if name not in got or numpy.shape(got[name]) != numpy.shape(w):
+                ctx.fail("roundtrip/stream-order", "stream", position=k, observable=name)
+                return
+            ctx.close("roundtrip", got[name], w, rtol=1e-10, scale=sc, where="stream", observable=name, cls=cls, position=k)
 
 
 # ---------------------------------------------------------------------------
